@@ -1040,6 +1040,9 @@ func (w *_assembler) AssignBytes(p []byte) error {
 }
 
 func (w *_assembler) AssignLink(link datamodel.Link) error {
+	if err := compatibleKind(w.schemaType, datamodel.Kind_Link); err != nil {
+		return err
+	}
 	val := w.createNonPtrVal()
 	// TODO: newVal.Type() panics if link==nil; add a test and fix.
 	customConverter := w.cfg.converterFor(w.schemaType.Name(), w.val)
